@@ -51,6 +51,19 @@ func c03EditFile(g *gen, f gFile) (gFile, []string) {
 		switch c := r.Intn(12); {
 		case c <= 2 && len(f.Rules) > 0:
 			i := r.Intn(len(f.Rules))
+			if r.Intn(6) == 0 && !f.Rules[i].Broken {
+				// same name, other kind, in place
+				nr := g.rule()
+				nr.Name = f.Rules[i].Name
+				if f.Rules[i].Kind == "record" {
+					nr.Kind = "alert"
+				} else {
+					nr.Kind, nr.For, nr.Annots = "record", "", nil
+				}
+				f.Rules[i] = nr
+				edits = append(edits, "replace-by-other-kind")
+				continue
+			}
 			edits = append(edits, "modify:"+g.mutateRule(&f.Rules[i]))
 		case c <= 4 && len(f.Rules) > 0:
 			i := r.Intn(len(f.Rules))
@@ -312,6 +325,17 @@ func c03Truth(hi *history, gitLog string) ([]c03Expect, map[string]string) {
 	for k, v := range hi.Origin {
 		origin[k] = v
 	}
+	// destinations of copy entries (only printed when the repository has copy detection on), followed through later renames
+	copyDst := map[string]bool{}
+	for _, l := range strings.Split(gitLog, "\n") {
+		p := strings.Split(l, "\t")
+		if len(p) == 3 && strings.HasPrefix(p[0], "C") {
+			copyDst[gitUnquote(p[2])] = true
+		}
+		if len(p) == 3 && strings.HasPrefix(p[0], "R") && copyDst[gitUnquote(p[1])] {
+			copyDst[gitUnquote(p[2])] = true
+		}
+	}
 	for ri, re := range hi.RenEdits {
 		if !confirmed(re[0], re[1]) {
 			// git saw delete + add: every later name of this file has no base version -- unless the add landed on a fork path that
@@ -351,11 +375,16 @@ func c03Truth(hi *history, gitLog string) ([]c03Expect, map[string]string) {
 		_, locs := hf.render()
 		o := origin[p]
 		if o == "" {
+			allowed, why := []string{"added"}, "file has no base version"
+			if copyDst[p] {
+				// git reported the new file as a copy: pint compares it with the source (renamed / modified); any CI state is fine
+				allowed, why = []string{"added", "renamed", "modified"}, "new file reported by git as a copy of another file (changed rule: any CI state)"
+			}
 			for i, ru := range hf.Rules {
 				if ru.Broken {
 					continue
 				}
-				out = append(out, c03Expect{Path: p, First: locs[i].First, Last: locs[i].Last, Key: ru.key(), Allowed: []string{"added"}, Why: "file has no base version"})
+				out = append(out, c03Expect{Path: p, First: locs[i].First, Last: locs[i].Last, Key: ru.key(), Allowed: allowed, Why: why})
 			}
 			continue
 		}
@@ -417,10 +446,28 @@ func c03Truth(hi *history, gitLog string) ([]c03Expect, map[string]string) {
 	return out, origin
 }
 
+const c03KnownCopy = "C03-copy-entry-consumes-source-record"
+
 func c03CheckE2E(c *c03E2E, rep *runReport) {
 	id := fmt.Sprintf("e2e-%d", c.ID)
-	// no known-finding class is left: every deviation from the history's truth is a violation
+	// known-finding class C03-copy-entry-consumes-source-record: the repository has git's copy detection switched on, git's log
+	// contains a `C src dst` entry, and the failing rule lives in the source or the destination file of such an entry
+	// (or in a file descending from one)
+	copyPaths := map[string]bool{}
+	if c.History.CopyConfig {
+		for _, l := range strings.Split(c.GitLog, "\n") {
+			p := strings.Split(l, "\t")
+			if len(p) == 3 && strings.HasPrefix(p[0], "C") {
+				copyPaths[gitUnquote(p[1])] = true
+				copyPaths[gitUnquote(p[2])] = true
+			}
+		}
+	}
 	failAt := func(path, what string) {
+		if copyPaths[path] || copyPaths[c.History.Origin[path]] {
+			rep.failKnown(id, what, c, c03KnownCopy)
+			return
+		}
 		rep.fail(id, what, c)
 	}
 	if c.Result.Exit != 0 && c.Result.Exit != 1 || !c.Result.JSONOK {
@@ -542,7 +589,7 @@ func runC03(args []string) int {
 	rep.hist(fmt.Sprintf("L3:corpus-histories=%d", len(cases)))
 	ncorpus := len(cases)
 	for i := 0; i < nh; i++ {
-		hg := &hgen{g: g, opts: hOpts{NoBroken: r.Intn(4) > 0, MaxFiles: 3, MaxRules: 4, MaxCommits: 4, OddPaths: true, OntoDeleted: i%5 == 0}}
+		hg := &hgen{g: g, opts: hOpts{NoBroken: r.Intn(4) > 0, MaxFiles: 3, MaxRules: 4, MaxCommits: 4, OddPaths: true, OntoDeleted: i%5 == 0, CopyDetect: i%12 == 7}}
 		cases = append(cases, &c03E2E{ID: 100000 + ncorpus + i, History: hg.generate()})
 	}
 	parallel(len(cases), 16, func(i int) { c03BuildE2E(cases[i], base) })
@@ -555,7 +602,9 @@ func runC03(args []string) int {
 		res := runInproc(filepath.Join(base, fmt.Sprintf("r%05d", c.ID)))
 		// the named hypothesis log_faithful, tested on git's real output (+ stratum: a rename landed on a path that has a record)
 		viol, fresh := checkLogFaithful(filepath.Join(base, fmt.Sprintf("r%05d", c.ID)), c.GitLog)
-		if len(viol) > 0 {
+		if len(viol) > 0 && strings.HasPrefix(viol[0], "copy entry") {
+			rep.hist("hyp:log_faithful-not-applicable(copy entries)")
+		} else if len(viol) > 0 {
 			rep.hist("hyp:log_faithful-violated")
 			rep.Notes = append(rep.Notes, fmt.Sprintf("history %d: log_faithful does not hold for git's own output: %v", c.ID, viol))
 		} else {
